@@ -752,3 +752,112 @@ Proof.
     + now rewrite Hx, IH.
     + now rewrite N.eqb_refl, IH.
 Qed.
+
+(* ------------------------------------------------------------------ what the spec says on the manual's examples *)
+Definition is_meta (c : N) : bool := (c =? g_star) || (c =? g_qm) || (c =? g_lbr).
+Definition literal_text (p : text) : Prop := forall c, In c p -> is_meta c = false.
+
+Lemma lex_fuel_lit_app : forall p q f, literal_text p -> (length (p ++ q) <= f)%nat ->
+  lex_fuel f (p ++ q) = map GLit p ++ lex_fuel (f - length p) q.
+Proof.
+  induction p as [|c p IH]; intros q f Hl Hf.
+  - cbn. now rewrite Nat.sub_0_r.
+  - destruct f as [|f]; [cbn in Hf; lia|]. cbn [app lex_fuel map length Nat.sub].
+    assert (Hc : is_meta c = false) by (apply Hl; now left). unfold is_meta in Hc.
+    apply orb_false_elim in Hc. destruct Hc as [Hc H3]. apply orb_false_elim in Hc. destruct Hc as [H1 H2].
+    rewrite H1, H2, H3. f_equal. apply IH; [intros x Hx; apply Hl; now right|cbn in Hf; lia].
+Qed.
+
+Lemma lex_lit_app : forall p q, literal_text p -> lex (p ++ q) = map GLit p ++ lex q.
+Proof.
+  intros p q Hl. unfold lex. rewrite lex_fuel_lit_app by (assumption || lia).
+  rewrite app_length. now replace (length p + length q - length p)%nat with (length q) by lia.
+Qed.
+
+Lemma gmatch_lit_prefix : forall p ts n,
+  gmatch (map GLit p ++ ts) n = true <-> exists v, n = p ++ v /\ gmatch ts v = true.
+Proof.
+  induction p as [|c p IH]; intros ts n; cbn [map app].
+  - split; [intros H; now exists n|intros (v & -> & H); exact H].
+  - cbn [gmatch]. destruct n as [|x n'].
+    + split; [discriminate|intros (v & E & _); discriminate].
+    + rewrite andb_true_iff, N.eqb_eq, IH. split.
+      * intros (-> & v & -> & H). now exists v.
+      * intros (v & E & H). injection E as -> ->. split; [reflexivity|now exists v].
+Qed.
+
+Lemma gmatch_nil : forall n, gmatch [] n = true <-> n = [].
+Proof. intros [|x n]; cbn; split; intros H; try reflexivity; discriminate. Qed.
+
+Lemma gmatch_star_only : forall n, gmatch [GStar] n = true <-> no_dot n = true.
+Proof.
+  intros n. rewrite gmatch_Matches. split.
+  - intros H. inversion H as [|r u v Hu Hm| | | |]; subst. inversion Hm; subst. now rewrite app_nil_r.
+  - intros H. rewrite <- (app_nil_r n). constructor; [assumption|constructor].
+Qed.
+
+Lemma gmatch_starstar_only : forall n, gmatch [GStarStar] n = true.
+Proof. intros n. apply gmatch_Matches. rewrite <- (app_nil_r n). constructor. constructor. Qed.
+
+(* a pattern without * ? [ matches its own text and nothing else: as a rule it is an exact rule *)
+Theorem literal_pattern : forall p n, literal_text p -> (matches p n = true <-> n = p).
+Proof.
+  intros p n Hl. unfold matches. rewrite <- (app_nil_r p) at 1. rewrite lex_lit_app by assumption.
+  change (lex []) with (@nil gtok). rewrite gmatch_lit_prefix. split.
+  - intros (v & -> & H). apply gmatch_nil in H. subst v. now rewrite app_nil_r.
+  - intros ->. exists []. split; [now rewrite app_nil_r|reflexivity].
+Qed.
+
+(* "twisted.test.*" : the names below twisted.test, one level *)
+Theorem prefix_star_pattern : forall p n, literal_text p ->
+  (matches (p ++ [g_star]) n = true <-> exists u, n = p ++ u /\ no_dot u = true).
+Proof.
+  intros p n Hl. unfold matches. rewrite lex_lit_app by assumption.
+  change (lex [g_star]) with [GStar]. rewrite gmatch_lit_prefix.
+  split; intros (u & E & H); exists u; (split; [assumption|]); now apply gmatch_star_only.
+Qed.
+
+(* "twisted.test.**" : everything below, any depth *)
+Theorem prefix_starstar_pattern : forall p n, literal_text p ->
+  (matches (p ++ [g_star; g_star]) n = true <-> exists u, n = p ++ u).
+Proof.
+  intros p n Hl. unfold matches. rewrite lex_lit_app by assumption.
+  change (lex [g_star; g_star]) with [GStarStar]. rewrite gmatch_lit_prefix.
+  split; [intros (u & E & _); now exists u|intros (u & E); exists u; split; [assumption|apply gmatch_starstar_only]].
+Qed.
+
+Lemma literal_wf : forall p, literal_text p -> wf_pattern p = true.
+Proof.
+  intros p Hl. unfold wf_pattern. rewrite <- (app_nil_r p). rewrite lex_lit_app by assumption.
+  change (lex []) with (@nil gtok). rewrite app_nil_r. induction p as [|c p IH]; [reflexivity|].
+  cbn. apply IH. intros x Hx. apply Hl. now right.
+Qed.
+
+Lemma forallb_lit : forall p, forallb tok_wf (map GLit p) = true.
+Proof. induction p; cbn; auto. Qed.
+
+Lemma literal_app_wf : forall p q, literal_text p -> wf_pattern (p ++ q) = wf_pattern q.
+Proof.
+  intros p q Hl. unfold wf_pattern. rewrite lex_lit_app by assumption.
+  rewrite forallb_app, forallb_lit. reflexivity.
+Qed.
+
+Theorem qnmatch_literal : forall p n, literal_text p -> (qnmatch n p = Ok true <-> n = p).
+Proof.
+  intros p n Hl. rewrite qnmatch_meaning by now apply literal_wf.
+  rewrite <- (literal_pattern p n Hl). split; [intros H; now injection H|intros ->; reflexivity].
+Qed.
+
+Theorem qnmatch_prefix_star : forall p n, literal_text p ->
+  (qnmatch n (p ++ [g_star]) = Ok true <-> exists u, n = p ++ u /\ no_dot u = true).
+Proof.
+  intros p n Hl. rewrite qnmatch_meaning by (rewrite literal_app_wf by assumption; reflexivity).
+  rewrite <- (prefix_star_pattern p n Hl). split; [intros H; now injection H|intros ->; reflexivity].
+Qed.
+
+Theorem qnmatch_prefix_starstar : forall p n, literal_text p ->
+  (qnmatch n (p ++ [g_star; g_star]) = Ok true <-> exists u, n = p ++ u).
+Proof.
+  intros p n Hl. rewrite qnmatch_meaning by (rewrite literal_app_wf by assumption; reflexivity).
+  rewrite <- (prefix_starstar_pattern p n Hl). split; [intros H; now injection H|intros ->; reflexivity].
+Qed.
